@@ -14,21 +14,21 @@ CHECKS = {
    text="(file, index) of every error come from one source object at every constructor call; Line/Column/Quote/trace lines only through NewLocation; JApiError/Location built only in package jerr; post-scan errors only through Directive.makeError with the captured trace; scan-time errors get the live stack, innermost first, once; the include-tracer memo builds its value from the live stack only and its key must determine the value (today it does not: recorded finding F16, repair blocked by a pinned test). Whether the index is the right one per message, and index < len(file), are not claimed.",
    design="DESIGN.md §5 C07",
    note=TB + "EOF errors carry index == len(file) and the pinned negative tests assert it: no rule is armed on that.",
-   technique="provenance lint of constructor arguments; who-may-construct and who-may-search-for-line-ends rules; memo key/value dependence analysis with a lossy-function deny list; edge-fact condition on the deferred trace attachment; must-pass-through of the include-trace attachment on go/cfg; located errors are not re-told (type-based)"),
+   technique="provenance lint of constructor arguments; who-may-construct and who-may-search-for-line-ends rules; memo key/value dependence analysis with a lossy-function deny list; edge-fact condition on the deferred trace attachment; must-pass-through of the include-trace attachment on go/cfg; located errors are not re-told (type-based); the type blamed by a user type's Check() is asked before the directive is chosen; every path through a trace recorder appends; no write through a lent slice (self-tested matcher); the post-scan constructor rule takes the dispatch handlers as roots"),
  "C09": dict(
    engine="rules/c09.go (+ c14.go validate-first)",
    category="other",
    text="The file switch at INCLUDE and at the end of an included file neither writes nor inspects parser state (store lint over the functions reachable from processInclude / isScanningFinished), open-context and JSIGHT tests are scoped by the include stack, scanning state is isolated per Scanner, directives of two inclusions are distinct instances, and every memo is keyed by what its value depends on. Catalog equality of split and unsplit documents is behavioural and not claimed.",
    design="DESIGN.md §5 C09",
    note=TB,
-   technique="write-effect lint at the file switch; scope conditions by edge facts; memo key/value dependence analysis; LIFO and key facts of the scanner stack from abstract evaluation of SSA; keyword pre-filters by abstract run on constants; position-needs-file comparison lint with a built-in positive example; agreement of a write count with the length it is compared with"),
+   technique="write-effect lint at the file switch; scope conditions by edge facts; memo key/value dependence analysis; LIFO and key facts of the scanner stack from abstract evaluation of SSA; keyword pre-filters by abstract run on constants; position-needs-file comparison lint with a built-in positive example; agreement of a write count with the length it is compared with; post-scan constructor discipline over the dispatch handlers; every path through a trace recorder appends"),
  "C15": dict(
    engine="rules/c09.go (C15 part)",
    category="other",
    text="Phase-order necessary condition for order independence: along the straight-line build pipeline, for each cross-block name space the phases that insert names precede the phases that resolve them; rules are attached only to fresh schemas; memo sets are insert-only and memo keys cover their values; keyword pre-filters that end a Description cover every keyword. The tag name space violates it today (recorded finding F20). Equality under permutation is behavioural and not claimed.",
    design="DESIGN.md §5 C15",
    note=TB,
-   technique="insert/resolve effect sets per pipeline phase compared along the phase order for every map field; placement invariants of processContext (abstract evaluation of SSA); end-of-Description predicate folded on the keyword table; stateful dependency calls in the build phases (with a discharge for samples that are never shown); symmetric check-and-register registries; membership tests as resolves"),
+   technique="insert/resolve effect sets per pipeline phase compared along the phase order for every map field; placement invariants of processContext (abstract evaluation of SSA); end-of-Description predicate folded on the keyword table; stateful dependency calls in the build phases (with a discharge for samples that are never shown); symmetric check-and-register registries; membership tests as resolves; late inserts marked by their constructor and refused by every lookup of the phase"),
  "C17": dict(
    engine="rules/c17.go (+ c01.go recover discipline)",
    category="other",
@@ -49,7 +49,7 @@ CHECKS = {
    text="For the module's code: interprocedural write effects (fixpoint over SSA, Once closures cut) show that nothing reachable from the five accessors or from MarshalJSON/MarshalText writes into pre-existing catalog/core/directive objects or package state; Once closures keep their state in the object; stateful dependency calls are Once-memoised and pool-backed bytes are copied before being kept. Byte equality inside the dependency is trusted (classification table depAPI).",
    design="DESIGN.md §5 C16",
    note=TB + "Heap freshness is allocation-site based (no points-to analysis in x/tools v0.29.0).",
-   technique="mod/ref (write-effect) analysis on go/ssa with a VTA call graph (shallow/deep writes through parameters, copies share what their pointers lead to; standard-library sorters count as writers); classification of dependency calls inherited along the dependency's call graph; once-only code writes only into its owner; once-closure totality; reads of once-initialised fields behind the Once; untyped deep stores that reach an entry point's receiver"),
+   technique="mod/ref (write-effect) analysis on go/ssa with a VTA call graph (shallow/deep writes through parameters, copies share what their pointers lead to; standard-library sorters count as writers); classification of dependency calls inherited along the dependency's call graph; once-only code writes only into its owner; once-closure totality; reads of once-initialised fields behind the Once; untyped deep stores that reach an entry point's receiver; no write through a lent slice (element stores, copy, sort, in-place filter; self-tested matcher)"),
  "C18": dict(
    engine="rules/c18.go + effects.go + c06.go (package state)",
    category="other",
@@ -63,21 +63,21 @@ CHECKS = {
    text="The model round trip is behavioural and not claimed. Decided are the necessary conditions the property names: writer/reader agreement of directive parameter keys per kind, a handler or collector for every directive kind, document-order emission of ordered maps, attachment of Body/Headers to the last response of the interaction derived from the same directive, priority of a method's own Tags, and the context-resolution / macro-expansion structure shared with C11 and C10.",
    design="DESIGN.md §5 C02",
    note=TB + "Attachment through context resolution is covered only as far as the C11/C10 rules go.",
-   technique="cross-table agreement (writers vs readers, kinds vs handlers) extracted from typed syntax; dominance rules; index/guard reasoning by definitions and affine forms with abstract evaluation of the setter as second opinion; normaliser lints; per-resource insert/resolve sets; bounded bisimulation of '(' LF against LF on the scanner automaton; abstract run of the '(' handler once per directive kind; reachability from the lexeme dispatch to the placement function; coverage of counting loops"),
+   technique="cross-table agreement (writers vs readers, kinds vs handlers) extracted from typed syntax; dominance rules; index/guard reasoning by definitions and affine forms with abstract evaluation of the setter as second opinion; normaliser lints; per-resource insert/resolve sets; bounded bisimulation of '(' LF against LF on the scanner automaton; abstract run of the '(' handler once per directive kind; reachability from the lexeme dispatch to the placement function; coverage of counting loops (index offsets followed); every schema made from a body gets all project rules on every path (go/cfg, lifted to helpers and callers); every field of a hand-written json structure is filled; a parameter is copied into the model whatever another parameter says"),
  "C03": dict(
    engine="rules/c03.go",
    category="other",
    text="Mechanisms behind 'one fault, rejected at the fault': insert-only-after-pure-presence-test for every name-keyed collection and single-valued slot (closures passed to Update tied to the value tested before), uniqueness sets never reset and never short-cut by 'exists, skip' lookups, every fault-class message still raised on a reachable path, handler errors located on the handler's own directive, no dropped error on the build path, annotation used or rejected per kind, JSIGHT-first before anything is added. Which check fires first for each fault x layout is not claimed.",
    design="DESIGN.md §5 C03",
    note=TB + "Errors of a macro body are relocated to the PASTE line by design (named exception).",
-   technique="dominance of guard tests over insertions (go/cfg), lifted to the callers of helpers, with abstract evaluation of the setter (helpers inlined) as second opinion; silent-exit-under-hit edge facts for declaring functions; liveness of error constants over the call graph; receiver-provenance lint; success returns in front of a check of the function's own statement list; dead and shadowing error stores on SSA; coverage of counting loops and loop-carried flags"),
+   technique="dominance of guard tests over insertions (go/cfg), lifted to the callers of helpers, with abstract evaluation of the setter (helpers inlined) as second opinion; silent-exit-under-hit edge facts for declaring functions; liveness of error constants over the call graph; receiver-provenance lint; success returns in front of a check of the function's own statement list; dead and shadowing error stores on SSA; coverage of counting loops and loop-carried flags; may-analysis over go/cfg of error variables that can hold a schema-library error (summaries by fixpoint) against constructors given err.Error(); tail-call checks and early returns in loops"),
  "C05": dict(
    engine="rules/c02.go (C05 part) + rules/c03.go",
    category="other",
    text="Both sides of each cross-reference are written together from one value: tag<->interaction pairing, id/key/protocol/method/path derivation, pure presence test before every insertion, tag source priority, body test on every response iteration, Update closures hand back the entry they were given, only codes inside the response-code range become a response directive, JSIGHT version constant. usedUserTypes closure and exact pathVariables are produced by the dependency from data and are not claimed.",
    design="DESIGN.md §5 C05",
    note=TB,
-   technique="value-identity and pairing rules on typed syntax (lifted to the callers of shared helpers); must-pass-through inside loops; visited-set discipline of the tag list; NewDirectiveType folded on the bounds of the response-code range; arguments of the path parsers are the path verbatim; coverage of counting loops"),
+   technique="value-identity and pairing rules on typed syntax (lifted to the callers of shared helpers); must-pass-through inside loops; visited-set discipline of the tag list; NewDirectiveType folded on the bounds of the response-code range; arguments of the path parsers are the path verbatim; the id accessors return the named parameter as it stands and the id constructors store exactly that; the path refuses the separator of the id; coverage of counting loops"),
  "C01": dict(
    engine="E1 scanner automaton + rules/c01.go, nilness.go, cgraph.go (AST, go/cfg, SSA, VTA call graph)",
    category="other",
@@ -88,10 +88,10 @@ CHECKS = {
  "C06": dict(
    engine="rules/c06.go",
    category="other",
-   text="For the module's own code: every range over a Go map is classified order-insensitive from its body (or is a reasoned named exception), ordered catalog maps iterate their order slice, no nondeterminism source is called, the code is sequential, and no package-level state survives a build. Determinism inside the dependency is trusted (thorough tier lists its sources as observations).",
+   text="For the module's own code: every range over a Go map is classified order-insensitive from its body (or is a reasoned named exception), ordered catalog maps iterate their order slice, no nondeterminism source is called, the code is sequential, and no package-level state survives a build. Inside the dependency: which of two faults of one document is reported first is analysed (walks over Go maps from which a fault can be raised, on the dependency's syntax and call graph; two such walks are a known finding, F47); its other nondeterminism sources are listed as observations in the thorough tier.",
    design="DESIGN.md §5 C06",
    note=TB + "An unsummarised call inside a map loop is reported, not assumed harmless, unless all its inputs derive from the element.",
-   technique="effect classification of map-range bodies (callee-named keyed-insert summary); who-may-call lint for nondeterminism sources; package-state write and reference-escape analysis; sorts after map ranges must be total orders on the elements"),
+   technique="effect classification of map-range bodies (callee-named keyed-insert summary); who-may-call lint for nondeterminism sources; package-state write and reference-escape analysis; sorts after map ranges must be total orders on the elements; map walks of the dependency that can raise a fault (syntax + call graph of the pinned version, recomputed in the thorough tier)"),
  "C13": dict(
    engine="E1 scanner automaton + E2 directive tables",
    category="model_checking",
@@ -105,14 +105,14 @@ CHECKS = {
    text="Well-formedness of the lexeme stream (bracketing, extent >= -1, order, positions) decided for all byte strings on a k-bounded pushdown abstraction of the extracted automaton that over-approximates the scanner (data-dependent branches free). Byte-for-byte equality with the rendered document is a runtime round trip and is not claimed.",
    design="DESIGN.md §5 C12",
    note=TB + "Schema/enum body extents are delegated to the dependency's Len() (trusted <= remaining input).",
-   technique="reachability on a pushdown system extracted from source; typestate of lexeme events; CR LF versus LF bisimulation to a bounded horizon on every configuration; reader-end rule on the transition table; begin/end pairing and the end-of-Description predicate folded on constants (abstract evaluation of SSA); position-free use of the scanner's parameter list"),
+   technique="reachability on a pushdown system extracted from source; typestate of lexeme events; CR LF versus LF bisimulation to a bounded horizon on every configuration; reader-end rule on the transition table; begin/end pairing and the end-of-Description predicate folded on constants (abstract evaluation of SSA); position-free use of the scanner's parameter list; no configuration swallows the end of the input with a lexeme open (exceptions named by the bytes that lead there)"),
  "C08": dict(
    engine="E1 scanner automaton",
    category="other",
    text="Necessary conditions of layout independence that are visible in the automaton: LF/CR and SP/TAB symmetry per state, comment push/pop/re-feed discipline, blank lines event-free and idempotent, both annotation forms available and '*/' always closing. Catalog equality under rewrites is behavioural and not claimed.",
    design="DESIGN.md §5 C08",
    note=TB + "Description de-indentation and annotation whitespace normalisation are checked only as far as the named rules say.",
-   technique="symmetry and typestate checks on the extracted scanner automaton incl. CR LF versus LF bisimulation to a bounded horizon; interprocedural unquote/normaliser lints; end-of-Description predicate folded for every follower byte; fence symmetry of block comments by shortest paths over the comment states; blank/tab pairing in cut sets and comparisons; '(' transparency by bounded bisimulation"),
+   technique="symmetry and typestate checks on the extracted scanner automaton incl. CR LF versus LF bisimulation to a bounded horizon; interprocedural unquote/normaliser lints; end-of-Description predicate folded for every follower byte; fence symmetry of block comments by shortest paths over the comment states; blank/tab pairing in cut sets and comparisons; '(' transparency by bounded bisimulation; a comment sign where '(' is accepted starts a comment (every configuration); final line break against end of input"),
  "C10": dict(
    engine="rules/c10.go (AST + go/cfg + go/types)",
    category="other",
@@ -126,14 +126,14 @@ CHECKS = {
    text="The context table in the source equals the frozen JSight 0.3 reference pair by pair, and the resolution algorithm has the required control structure (single context cursor, attach only under the allowed lookup, walk-up only from implicit contexts, explicit contexts reject, ')' closes the innermost explicit context, a directive is placed exactly once - as a child or in the root list - on every successful path, the pending directive is finalised before ')' and before the end-of-file test). The verdict for each concrete directive sequence (table x algorithm product) is not enumerated.",
    design="DESIGN.md §5 C11",
    note=TB + "tools/reference/context_table.json is the oracle for the table; it was derived from the pinned tree and reviewed against the language description.",
-   technique="typed-literal table extraction compared with a reference relation; the accessors folded on all pairs of kinds and compared with the literal (abstract evaluation of SSA); edge facts on the open-context walk; dominance rules on processContext; path/term invariants of processContext and closeLastExplicitContext from abstract evaluation of SSA (internal/ssaeval); '(' transparency by bounded bisimulation; abstract run of the '(' handler per directive kind; reachability from the lexeme dispatch to the placement function; who-writes rule for the explicit-context flag"),
+   technique="typed-literal table extraction compared with a reference relation; the accessors folded on all pairs of kinds and compared with the literal (abstract evaluation of SSA); edge facts on the open-context walk; dominance rules on processContext; path/term invariants of processContext and closeLastExplicitContext from abstract evaluation of SSA (internal/ssaeval); '(' transparency by bounded bisimulation; abstract run of the '(' handler per directive kind; reachability from the lexeme dispatch to the placement function; who-writes rule for the explicit-context flag; a comment sign where '(' is accepted starts a comment; no pop of an empty step stack"),
  "C14": dict(
    engine="rules/c14.go + rules/strpred.go (predicate automaton)",
    category="other",
    text="For all parameter strings and include graphs (modulo symlinks/OS path semantics): who-may-call for file primitives, validate-before-stat on the same value, language inclusion of the name predicate in the safe language decided on a product automaton (counterexample word printed), the cycle guard of the scanner stack (decided on the abstract evaluation of Stack.Push/Pop: lookup missed, same term inserted, key is the unwrapped Name() of the scanner's file, Pop deletes it), and an INCLUDE after an implicit Description is recognised as a directive. Thorough tier repeats who-may-call over the whole-program VTA call graph through the dependency.",
    design="DESIGN.md §5 C14",
    note=TB + "A predicate written outside the supported atom set (==, s[0], len, strings.Contains/HasPrefix/HasSuffix/ContainsRune/ContainsAny, range over strings.Split) is reported as undecided.",
-   technique="who-may-call by role + flow of the validated path through parameters; must-pass-through on go/cfg; regular-language inclusion of the extracted name predicate; name-is-path and who-may-raise-the-recursion-message rules; path/term facts of Stack.Push/Pop from abstract evaluation of SSA (internal/ssaeval); a re-wrapped or read file keeps name, bytes and path parameter; escape state of quoted parameters against the two escapes of the language; write count against length"),
+   technique="who-may-call by role + flow of the validated path through parameters; must-pass-through on go/cfg; regular-language inclusion of the extracted name predicate; name-is-path and who-may-raise-the-recursion-message rules; path/term facts of Stack.Push/Pop from abstract evaluation of SSA (internal/ssaeval); a re-wrapped or read file keeps name, bytes and path parameter; escape state of quoted parameters against the two escapes of the language; write count against length; the cycle test must name the file about to be scanned (known finding); file and index of every error from one object; no lexeme open at the end of the input"),
  "C19": dict(
    engine="rules/c19.go",
    category="other",
